@@ -95,7 +95,7 @@ pub fn replay_case(case: &Value, tally: &mut Tally) {
             }
         }
         for pv in case["perval"].as_array().unwrap() {
-            let v = pv["v"].as_u64().unwrap();
+            let v = match pv["v"].as_i64() { Some(x) if x < 0 => u64::MAX, _ => pv["v"].as_u64().unwrap() };
             tally.check(hkey(&[ckey, 8, v]), nt, &|| ctx("contains", &json!(0), v), &pv["contains"], &query(wm, core, "contains", 0, v));
             tally.check(hkey(&[ckey, 9, v]), nt, &|| ctx("value_iter", &json!(0), v), &pv["iter"], &iter_items(wm, v));
             for (j, arg) in args.iter().enumerate() {
